@@ -2318,11 +2318,14 @@ class vec(exp):
                     widening = True
             else:
                 l.append(ee)
-        self.l = []
+        ll = []
         for e in l:
-            if e in self.l:
+            if e in ll:
                 continue
-            self.l.append(e)
+            ll.append(e)
+        # (assigned once it is complete: an exception raised by a comparison
+        # above must not leave this vec with some of its alternatives missing)
+        self.l = ll
         if len(self.l) == 1:
             return self.l[0]
         if widening:
